@@ -110,7 +110,7 @@ func templateHelpers(deps templateDeps) template.FuncMap {
 		"defaultForType": func(typeDef ast.Type) string {
 			return formatValue(defaultValueForType(deps.config, deps.context.Schemas, typeDef, nil))
 		},
-		"disjunctionCaseForType": func(input string, typeDef ast.Type) string {
+		"disjunctionCaseForType": func(input string, typeDef ast.Type) (string, error) {
 			return disjunctionCaseForType(typesFormatter, input, typeDef)
 		},
 
